@@ -44,10 +44,22 @@ GRV_CMD(threads) {
     // sequential reference on a private face / font
     std::vector<uint8_t> nameov;
     if (argc > 7) { std::string hx = slurp(argv[7]); while (!hx.empty() && (hx.back() == '\n' || hx.back() == ' ')) hx.pop_back(); nameov = unhex(hx); }
+    // optional staging: "badglyph" gives glyph 99 an empty attribute range - such a font is refused when all glyphs are
+    // loaded up front, so there is nothing to share (unless the library quietly falls back to loading on demand)
+    const bool badglyph = argc > 8 && !strcmp(argv[8], "badglyph");
+    auto stage = [&](TableFace &t) {
+        if (!badglyph) return;
+        std::vector<uint8_t> g = t.tables[tagof("Gloc")];
+        const bool lng = be16(&g[4]) & 1; const size_t esz = lng ? 4 : 2, at = 8 + esz * 99;
+        if (at + 2 * esz <= g.size()) memcpy(&g[at], &g[at + esz], esz);
+        t.tables[tagof("Gloc")] = g;
+    };
     {
         TableFace rtf; if (!rtf.load(font)) return 2;
         if (!nameov.empty()) rtf.set("name", nameov);
+        stage(rtf);
         gr_face *rf = rtf.make(gr_face_preloadAll);
+        if (!rf && badglyph) { fclose(tr); vj::W w; w.i("jobs", 0).i("refused", 1); report_summary(w.done().c_str()); return 0; }
         if (!rf) { fprintf(stderr, "cannot load %s\n", font.c_str()); return 2; }
         gr_font *rfont = gr_make_font(14.0f, rf);
         for (size_t i = 0; i < texts.size(); ++i) { fprintf(tr, "{\"e\":\"Ref\",\"key\":\"s%zu\",\"h\":\"%s\"}\n", i, shape_hash(rf, rfont, texts[i], dir).c_str()); fprintf(tr, "{\"e\":\"Ref\",\"key\":\"n%zu\",\"h\":\"%s\"}\n", i, shape_hash(rf, 0, texts[i], dir).c_str()); }
@@ -58,6 +70,7 @@ GRV_CMD(threads) {
     TableFace tf; tf.poison = true;
     if (!tf.load(font)) return 2;
     if (!nameov.empty()) tf.set("name", nameov);
+    stage(tf);
     tf.events.reserve(1024); tf.bufs.reserve(256);
     gr_face *face = tf.make(gr_face_preloadAll);
     if (!face) { fprintf(stderr, "shared face failed to load\n"); return 2; }
